@@ -155,6 +155,7 @@ struct WorkerSlot {
   std::atomic<int> cell;
   std::atomic<u64> idx;
   std::atomic<int> phase;  // 0 idle, 1 running a case, 2 between cases
+  std::atomic<int> done;   // the batch child ran its whole batch and is exiting on purpose
 };
 
 struct Site {
@@ -1055,6 +1056,7 @@ inline void ChildBatch(const Batch& b, int slot, const char* errpath) {
              (unsigned long long)b.begin, (unsigned long long)b.end);
   }
 #endif
+  g_shm->w[slot].done.store(1, kRlx);
   ChildExit(0);
 }
 
@@ -1352,6 +1354,7 @@ inline int Main(int argc, char** argv, const char* family) {
     r.err = std::string(g_cfg.logdir) + "/vf-" + family + "-" + std::to_string(getpid()) + "-" +
             std::to_string(slot) + ".err";
     g_shm->w[slot].phase.store(0, kRlx);
+    g_shm->w[slot].done.store(0, kRlx);
     g_shm->w[slot].idx.store(b.begin, kRlx);
     g_shm->w[slot].cell.store(b.cell, kRlx);
     std::fflush(out);
@@ -1425,7 +1428,7 @@ inline int Main(int argc, char** argv, const char* family) {
       continue;
     }
     bool ok = WIFEXITED(status) && WEXITSTATUS(status) == 0;
-    if (ok) {
+    if (ok && g_shm->w[slot].done.load(kRlx) == 1) {
       unlink(r.err.c_str());
       continue;
     }
@@ -1563,7 +1566,9 @@ extern "C" const char* __ubsan_default_options() {
   return "print_stacktrace=1:halt_on_error=1";
 }
 extern "C" const char* __lsan_default_options() {
-  return "exitcode=0:print_suppressions=0";
+  // NB: exitcode is a flag common to all sanitizers of the process; setting it here would also change the exit code
+  // of AddressSanitizer errors
+  return "print_suppressions=0";
 }
 #endif
 #if VF_TSAN
